@@ -393,7 +393,6 @@ func ruleKillArg(c *Ctx) {
 	}
 }
 
-
 // ruleResumeApi: LState.Resume receives (ok, values…) on the resumer's stack from switchToParentThread,
 // copies them out and must drop them again: every return after threadRun passes SetTop(top), top being
 // the stack height read before the switch.
